@@ -905,6 +905,30 @@ class Emitter:
                     s.typed_new.setdefault(ins.a.name, ins.ty.to)
         zero_ret = '' if isinstance(f.ret, VoidTy) else ' (%s){0}' % s.ctype(f.ret) if s.is_agg(f.ret) else ' 0'
         propagate = 'if (__vf_exc_pending) return%s;' % zero_ret
+        if getattr(s, 'rpo', False) and not s.loopcuts.get(f.name[1:]):
+            # opt-in (--rpo): emit the blocks in reverse post-order of the CFG, so that only genuine loops have backward gotos.  In IR
+            # order shared landing pads / cleanup blocks often precede the invokes that jump to them; CBMC treats every backward goto
+            # as a loop to unwind and symex of exception-heavy functions (Session::process: 34 such "loops") becomes very slow.
+            succ = {}
+            for lab, inss in blocks:
+                tg = []
+                for ins in inss:
+                    if ins.op == 'br': tg.append(ins.target)
+                    elif ins.op == 'condbr': tg += [ins.t, ins.f]
+                    elif ins.op == 'switch': tg += [tl for cv, tl in ins.cases] + [ins.dflt]
+                    elif ins.op == 'invoke': tg += [ins.normal, ins.unwind]
+                succ[lab] = [_lab(x) for x in tg]
+            seen_b = set(); post = []
+            stack = [(blocks[0][0], iter(succ.get(blocks[0][0], [])))]; seen_b.add(blocks[0][0])
+            while stack:
+                lab0, it = stack[-1]
+                for nx in it:
+                    if nx not in seen_b and nx in succ:
+                        seen_b.add(nx); stack.append((nx, iter(succ[nx]))); break
+                else:
+                    post.append(lab0); stack.pop()
+            bymap = dict(blocks); rpo_labs = post[::-1]
+            blocks = [(lab0, bymap[lab0]) for lab0 in rpo_labs] + [(lab0, inss) for lab0, inss in blocks if lab0 not in seen_b]
         for lab, inss in blocks:
             body.append('%s: ;' % L(lab))
             for ins in inss:
@@ -1239,6 +1263,7 @@ def main():
     ap.add_argument('--prefix', default='')
     ap.add_argument('--provided', action='append', default=[], help='external symbol defined by the harness (no trap stub)')
     ap.add_argument('--loopcut', action='append', default=[], help='fn:hook:var1,var2,... (needs -g IR)')
+    ap.add_argument('--rpo', action='store_true', help='emit basic blocks in reverse post-order (fewer spurious backward gotos)')
     a = ap.parse_args()
     m = parse_module(open(a.ll).read())
     stubs = {}
@@ -1256,6 +1281,7 @@ def main():
                     if rx.search(fn[1:]): stubs[fn] = v
             else: stubs['@' + k] = v
     e = Emitter(m, stubs); e.prefix = a.prefix
+    e.rpo = a.rpo
     e.loopcuts = {}
     for lc in a.loopcut:
         fn, hook, vs = lc.split(':'); e.loopcuts.setdefault(fn, []).append(dict(hook=hook, vars=vs.split(',')))
